@@ -1,7 +1,7 @@
 (* C30: every sequence of WriteField / SetMaxDynamicTableSize / end-of-block operations round-trips. *)
 From Coq Require Import List ZArith Bool Lia ZifyBool ZifyNat.
 From Bfe Require Import lib.Val lib.Bytes gen.HpackTables model.Huffman model.Hpack run.RunC30
-  proofs.HuffmanProofs proofs.HpackProofs.
+  proofs.HuffmanProofs proofs.HpackProofs proofs.HpackLimProofs proofs.HpackEmitProofs.
 Import ListNotations.
 Open Scope Z_scope.
 Strategy opaque [enc_field search_table search_list].
@@ -65,7 +65,7 @@ Lemma run_ops_ok : forall ops e t0 blk cur ff t out,
 Proof.
   induction ops as [|o ops IH]; intros e t0 blk cur ff t out Hwf Hdec Hsim Hpc.
   - exists []. split; [cbn [run_ops]; rewrite app_nil_r; reflexivity|reflexivity].
-  - pose proof (Dec_first hd _ _ _ _ _ _ Hdec) as Hff. destruct o as [f|v|]; cbn [wf_ops_b] in Hwf.
+  - pose proof (Dec_first hd _ _ _ _ _ _ Hdec) as Hff. destruct o as [f|v| |k]; cbn [wf_ops_b] in Hwf.
     + apply andb_true_iff in Hwf. destruct Hwf as [Hf Hwf']. apply wf_field_b_f in Hf.
       pose proof Hsim as [_ [Hoke _]]. destruct (enc_write_some e f Hoke) as [e' [b Hw]].
       assert (epending e = true -> ff = true) as Hpf by (intros Hp; rewrite (Hpc Hp) in Hff; exact Hff).
@@ -86,6 +86,15 @@ Proof.
       exists (block_record blk cur 0 e (mkD t [] true) :: res). split.
       * rewrite Hr. cbn [rev]. rewrite <- app_assoc. reflexivity.
       * cbn [blocks_ok]. rewrite (block_ok_record e t blk cur Hsim), Hb. reflexivity.
+    + cbn [run_ops expected_blocks].
+      assert (dec_run_e hd 0 (mkD t0 [] true) k [blk] [] = (mkD t [] true, take_b k cur, 0)) as ->.
+      { apply (emit_independent hd 0 ltac:(lia)). rewrite dec_run_lim0. apply (Dec_run hd _ _ _ _ _ _ Hdec). }
+      change (0 =? ST_PANIC) with false. cbv iota.
+      assert (epending e = true -> @nil field = []) as Hpc' by reflexivity.
+      destruct (IH e t [] [] true t (block_record blk (take_b k cur) 0 e (mkD t [] true) :: out) Hwf (Dec_nil hd true t) Hsim Hpc') as [res [Hr Hb]].
+      exists (block_record blk (take_b k cur) 0 e (mkD t [] true) :: res). split.
+      * rewrite Hr. cbn [rev]. rewrite <- app_assoc. reflexivity.
+      * cbn [blocks_ok]. rewrite (block_ok_record e t blk (take_b k cur) Hsim), Hb. reflexivity.
 Qed.
 
 Lemma init_sim : exists e0, init_enc L = Some e0 /\ sim L e0 (ddt (init_dec L)).
@@ -150,7 +159,7 @@ Proof.
 Qed.
 Definition ex_input : val :=
   VL [VZ 100; VL [VL [VZ 1; VZ 50]; VL [VZ 0; VB [58;109;101;116;104;111;100]; VB [71;69;84]; VZ 0];
-                  VL [VZ 0; VB [120;45;97]; VB [104;101;108;108;111]; VZ 1]; VL [VZ 2];
+                  VL [VZ 0; VB [120;45;97]; VB [104;101;108;108;111]; VZ 1]; VL [VZ 2; VZ 1];
                   VL [VZ 1; VZ 0]; VL [VZ 1; VZ 4096]; VL [VZ 0; VB [120;45;97]; VB [255;0;1]; VZ 0]; VL [VZ 2]]].
 Lemma ex_input_wf : wf_C30 ex_input = true /\ agree_C30 ex_input (run_C30 ex_input) = true.
 Proof. vm_compute. split; reflexivity. Qed.
